@@ -15,9 +15,11 @@
       answers stay, keys below the walk untouched, new entries end `≤ pos_max`, the visited position
       is recorded).  The top frame starts with the empty memo, which is closed; a nested frame
       `[labelStart, labelEnd)` is closed iff the entry test `Closed cache labelStart labelEnd` holds.
-      `Lemmas/MemoSafeEntry.lean` (when present in this tree: `entrySafe_memoSafe`) turns this into an
-      executable sufficient condition: the ENTRY-CHECKED run (model tokenizer + that one test at each
-      nested `tokenize` call) completes ⇒ the guarded run completes ⇒ `parseInline` is total.
+      `Lemmas/MemoSafeEntry.lean` turns this into a theorem about whole runs: the ENTRY-CHECKED
+      tokenizer `tokLoopE` (the MODEL tokenizer, no guard on memo hits, plus that one test at each
+      nested `tokenize` call; `entrySafe` = it completes) — `entry_total`: a completed entry-checked
+      run IS a completed guarded run with the same final state (real mode threaded through
+      `linkRule_real_E … tokStep_E`); `entrySafe_memoSafe`, `parseInline_total_of_entrySafe`.
 
    B. L1 — REPLAY OF LABEL WALKS (`Lemmas/MemoSafeWalk.lean`, `MemoSafeLabel.lean`).
       `pwalk` = the label walk on the memo ALONE (no rule runs).
@@ -43,6 +45,28 @@
       (= `parseLink_entry_closed_G`): if the memo `parse_link` returns is laminar, the nested frame
       starts closed.
 
+   D. WINDOW INDEPENDENCE (`Lemmas/MemoSafeWindow.lean`, `MemoSafeWindow2.lean`): the look-ahead verdict
+      of every rule without look-ahead recursion does not change when `pos_max` shrinks from `M` to
+      `M'`, as long as the verdict ends `≤ M'` and the character at `M'` is `]` (or `M' = M`):
+      `ruleText_window`, `ruleNewline_window`, `ruleEscape_window`, `ruleAutolink_window`,
+      `ruleEntity_window`, `ruleBackticks_window` (code-span cache: any `CacheInv` cache),
+      `parseInlineTail_window` (the `(dest "title")` tail; needs only boundaries, and `Link.DecOk` of
+      the decoder — `decOk_unescapeAll`).  Each hypothesis is shown necessary by an example there.
+
+   E. WHAT `ChainCoherent` MEANS (`Lemmas/MemoSafeFires.lean`): `silent_declines` — `RuleId.firesAt` is
+      sound (a rule declines in look-ahead mode at a first character not in its list);
+      `chain_declines_at_marker`, `skipStep_unit_at_marker` — for a coherent chain the look-ahead token
+      at an emphasis marker is the single character (`pos ↦ pos + 1`): a real delimiter run covers
+      single-character entries.
+
+   F. (I3) AT CREATION AND L2 FOR LINKS (`Lemmas/MemoSafeRec.lean`): `skipStep_records_link` — the
+      entry a look-ahead step makes at a `[` is the single character, or the memo records (for ever)
+      a label walk from `pos + 1` that finds a `]` strictly inside the entry; `parseLinkLabel_replay` —
+      the real link rule re-finds that label end in every frame with a smaller `pos_max` that
+      contains it, at any level, on less fuel, by memo hits only, returning the state it was given;
+      `parseLink_replay_inline` — a successful inline-form `parse_link` is replayed IDENTICALLY (same
+      label, destination, title, end) in every such frame (L1 + D).
+
   HENCE the open lemma is reduced to ONE static, global property of the memo:
 
       the memo is `Laminar` whenever the real link rule enters a nested frame.          (L3)
@@ -62,6 +86,10 @@
   the brute-force runs —, and which lemmas are already there).
 -/
 import MdIt.Lemmas.MemoSafeLabel
+import MdIt.Lemmas.MemoSafeEntry
+import MdIt.Lemmas.MemoSafeRec
+import MdIt.Lemmas.MemoSafeWindow
+import MdIt.Lemmas.MemoSafeWindow2
 import MdIt.Props.InlineTotal
 
 namespace MdIt.Inline
@@ -177,37 +205,62 @@ example : pwalk "a[b]c]".toList 5 [(0, 1), (1, 2), (2, 3), (3, 4), (4, 5)] false
 -- … an entry beyond `pos_max` (what the guard is about) and a position without entry are reported
 example : pwalk "a[b]c]".toList 5 [(0, 1), (1, 6)] false 10 1 0 = .beyond 1 6 := by decide +kernel
 example : pwalk "a[b]c]".toList 6 [(0, 1)] false 10 1 0 = .miss 1 := by decide +kernel
+-- E on the stock chain: the look-ahead token at `*` is the single character (entry `0 ↦ 1`)
+example : (match skipToken (stockCfg 100) 5 (IState.init "*a*".toList [(0, 0)]) with
+    | .ok s => some (s.pos, s.cache) | .error _ => none) = some (1, [(0, 1)]) := by decide +kernel
+-- F: the entry at the `[` of "[a](b) c" covers the link (`0 ↦ 6`), the label walk `1 ↦ 2` is in the memo
+example : (match skipToken (stockCfg 100) 9 (IState.init "[a](b) c".toList [(0, 0)]) with
+    | .ok s => some (s.pos, s.cache) | .error _ => none) = some (6, [(0, 6), (1, 2)]) := by decide +kernel
 -- a laminar memo with a path is closed; a crossing one is not
 example : laminarB [(0, 1), (1, 5), (2, 3), (3, 4)] = true ∧ laminarB [(1, 5), (2, 7)] = false := by
   decide +kernel
 
-/-
-  OPEN: (L3) and the unconditional theorems.
+/-- the chain from the entry check to totality, for coherent chains (`ChainCoherent` supplies the
+    single-byte markers the no-panic theorems need) -/
+theorem parseInline_total_of_entrySafe_coherent (cfg : Cfg) (hc : ChainCoherent cfg = true)
+    {content : List Char} {mapping : Srcmap} (hm : MapOK content mapping)
+    (h : entrySafe cfg content mapping = true) : ∃ cs, parseInline cfg content mapping = .ok cs :=
+  parseInline_total_of_entrySafe cfg (coherent_hsz hc) hm h
 
-  theorem entry_laminar (cfg : Cfg) (hc : ChainCoherent cfg = true) {content mapping} (hm : MapOK content mapping) :
-      -- along the guarded (equivalently, by A, the model's) run of `parseInline cfg content mapping`,
-      -- at every real-mode call `parseLink … = .ok (some res, st')` of the link rule:
-      Laminar st'.cache
-  ⇒ (C) every nested frame starts `Closed` ⇒ (A, `Lemmas/MemoSafeEntry.lean`) `memoSafe` ⇒
-  `parseInline_total` (`Props/InlineTotal.lean`) ⇒ `doc_total` for tab-free sources
-  (`doc_total_of_memoSafe` + `Block.parseBlocks_geo2` / `inlSpec2_pmapF` of `Props/C05Inline.lean`).
+-- the entry check on runs with nested frames (stock chain; `max_nesting = 2`: look-ahead over the limit)
+example : entrySafe (stockCfg 100) "![a [b](c) *d*](e) [a][a] [x".toList [(0, 0)] = true := by
+  decide +kernel
+example : entrySafe (stockCfg 2) "[[[a](b)](c)](d) `[`".toList [(0, 0)] = true := by decide +kernel
+-- it fails on the witness of `Props/InlineTotal.lean` (the label `[3,7)` is entered with `6 ↦ 13`)
+example : entrySafe witnessCfg witness [(0, 0)] = false := by decide +kernel
+
+/-
+  OPEN: the one remaining lemma, and the unconditional theorems it gives.
+
+  theorem entrySafe_of_coherent (cfg : Cfg) (hc : ChainCoherent cfg = true) {content : List Char}
+      {mapping : Srcmap} (hm : MapOK content mapping) : entrySafe cfg content mapping = true
+    -- i.e. every nested frame the real link rule enters starts `Closed`; by C
+    -- (`frame_entry_closed_of_laminar`) it is enough that the memo `parse_link` returns in real mode
+    -- is `Laminar` (L3).
+  theorem memoSafe_of_coherent … : memoSafe cfg content mapping = true
+    := entrySafe_memoSafe cfg (coherent_hsz hc) hm (entrySafe_of_coherent cfg hc hm)
+  theorem parseInline_total … : ∃ cs, parseInline cfg content mapping = .ok cs
+    := parseInline_total_of_entrySafe_coherent cfg hc hm (entrySafe_of_coherent cfg hc hm)
+  theorem doc_total (cfg : DocCfg) … (hpara : cfg.hasPara) (htab : '\t' ∉ src)
+      (hsmall : 4 * |src| + 8 < 2^31) : (∃ t, parseDoc cfg src = .ok t) ∧ ∀ x, ∃ html, renderDoc x cfg src = .ok html
+    := `doc_total_of_memoSafe` (`Props/InlineTotal.lean`) with `Pipeline.doc_placeholder_tables`
+       (`Props/C05Inline.lean`: every placeholder of a tab-free source has a `MapOK` table).
 
   What a proof of (L3) needs (each item holds in all brute-force runs; `Qn` = the check of the native
-  copy in /verif/work/w7-inlinetotal, extended in this session):
+  copy `/verif/work/w9-memo/Brute.lean`):
    (I1) real positions are not crossed: at every real tokenizer position `r` of a frame `[ls, M)` with
         `level < max_nesting`, every entry starting in `[ls, r)` ends `≤ r` or is an over-limit entry
         (`= M`)                                                                              (Q3);
    (I2) L2, real follows look-ahead: a real step at `r` with an entry `r ↦ v` ends at `v`, or `src[r]` is
-        an emphasis marker (the run then covers single-character entries: `ChainCoherent`), or
-        `v = M` (over-limit entry)                                                           (Q5).
-        Flat rules: `silent_real_<rule>` + window independence under `pos_max` shrinking to a `]`
-        (`Lemmas/MemoSafeWindow*.lean` when present); link / image: B (`labelLoop_replay` on the
-        recorded walk of the entry, `pwalk_shrink_found`) + window independence of
-        `Link.parseInlineTail`; needs (I3);
+        an emphasis marker (E: the run covers single-character entries), or `v = M` (over-limit
+        entry)                                                                               (Q5).
+        Flat rules: `silent_real_<rule>` + D; link / image: F (`parseLinkLabel_replay`,
+        `parseLink_replay_inline`; the REFERENCE form — second label walk recorded by
+        `parseLink_records` as well, `Refs.lookup` does not read the window — and the FAILING case
+        "look-ahead link failed ⇒ real link fails" are not written yet); needs (I3);
    (I3) recorded entries: every entry `k ↦ v`, `v > k + 1`, at a `[` (resp. `![`) that is not an
-        over-limit entry has its label walk in the memo: `pwalk … 1 (k+1)` finds some `lq < v`, and for
-        the full reference form the second walk from `lq + 2` finds `v - 1`
-        (`labelLoop_records` gives this at creation; `pwalk_mono` keeps it);
+        over-limit entry has its label walk in the memo (F: `skipStep_records_link` proves it at
+        creation for `[`; `pwalk_mono` keeps it; the image rule `![` is the same argument at `k + 2`);
    (I4) frontier: at a memo MISS at `q` inside a walk, memo keys beyond `q` exist only when
         `src[q] = '['`, or `src[q] = ']'` and `src[q+1] = '['` (the two positions a second label walk
         jumps over)                                                                           (Q1);
